@@ -18,7 +18,8 @@ VARIABLES l,
           file,       \* the sign-state file as last observed
           released,   \* every message handed back with a nil error in this run
           unsynced,   \* pipeline half: WAL records written but not yet flushed+synced
-          poisoned,   \* pipeline half: a crash left a torn WAL tail of 1..3 bytes (see below)
+          poisoned,   \* pipeline half: the WAL has been in one of the two situations in which the code
+                      \* as it is loses synced records at a later start-up (see StepSign)
           viol, drift
 vars == <<l, mem, file, released, unsynced, poisoned, viol, drift>>
 
@@ -76,12 +77,16 @@ StepSign(e) ==
           \cup FailIf(mem # Down /\ specFile # e.file, D("sign-state file differs from spec", res.kind))
           \cup FailIf(ok /\ ~SigOverMessage(rel), D("returned signature is not over the returned message", res.kind))
           \cup FailIf(e.ev = "CsSign" /\ e.unsynced # 0, D("signing call with unsynced WAL tail", "flush"))
-          \* NoSelfLockout of TMSignCrash.  A torn WAL tail of 1..3 bytes is read as a clean end of
-          \* log (WALDecoder.Decode takes the short read of the CRC for io.EOF), is not repaired, and
-          \* makes the NEXT restart drop every record appended after it: then the node can forget
-          \* inputs it had synced before signing.  Such runs are labelled, not hidden.
+          \* NoSelfLockout of TMSignCrash.  Two behaviours of the WAL as it is make a later start-up
+          \* lose records that were fsync'ed, so that the node forgets inputs it had synced before
+          \* signing (TMSignCrash: ShortTornUndetected, EndHeight0IntoEmptyHead):
+          \*   - a torn tail of 1..3 bytes is read as a clean end of the log, is not repaired, and the
+          \*     NEXT restart drops every record appended behind it;
+          \*   - "#ENDHEIGHT 0" is written into an empty head file although rotated files exist, and
+          \*     catch-up replay never looks at the rotated files again.
+          \* Runs in which one of the two has happened are labelled, not hidden.
           \cup FailIf(e.ev = "CsSign" /\ ~ok /\ e.err = "err_conflict" /\ e.req.t # "proposal",
-                      D(IF poisoned THEN "vote refused as conflicting after an undetected short torn WAL tail (self lock-out, known WAL behaviour)"
+                      D(IF poisoned THEN "vote refused as conflicting after the WAL lost synced records (short torn tail / #ENDHEIGHT 0 into an empty head): self lock-out, known WAL behaviour"
                                     ELSE "vote refused as conflicting with the node's own earlier vote (self lock-out)", res.kind))
      /\ viol' = viol
           \cup (IF ok THEN ReleaseViol(e, rel, e.file, mem) ELSE {})
@@ -116,6 +121,11 @@ StepWal(e) ==
   /\ unsynced' = IF e.op = "Write" THEN unsynced + 1 ELSE 0
   /\ UNCHANGED <<mem, file, released, poisoned, viol, drift>>
 
+\* the WAL is opened (node start, or again after repairWalFile)
+StepWalOpen(e) ==
+  /\ poisoned' = (poisoned \/ (e.head_empty /\ e.files > 0))
+  /\ UNCHANGED <<mem, file, released, unsynced, viol, drift>>
+
 \* environment input, internal message, replay marker: no signer state changes
 StepNote(e) == UNCHANGED <<mem, file, released, unsynced, poisoned, viol, drift>>
 
@@ -128,6 +138,7 @@ Step ==
          [] e.ev = "Crash"   -> StepCrash(e)
          [] e.ev = "Load"    -> StepLoad(e)
          [] e.ev = "Wal"     -> StepWal(e)
+         [] e.ev = "WalOpen" -> StepWalOpen(e)
          [] OTHER            -> StepNote(e)
   /\ l' = l + 1
 
